@@ -79,7 +79,7 @@ def semgrep_flag(codemod, files: list[Path]) -> dict[str, list]:
     yamls = codemod.detector.get_yaml_files(codemod._internal_name)
     out = Path(tempfile.mkstemp(suffix=".sarif", dir=os.environ.get("TMPDIR"))[1])
     try:
-        cmd = ["semgrep", "scan", "--no-error", "--sarif", "-o", str(out)]
+        cmd = ["semgrep", "scan", "--no-error", "--jobs", "1", "--sarif", "-o", str(out)]
         for y in yamls:
             cmd += ["--config", str(y)]
         cmd += [str(f) for f in files]
@@ -101,45 +101,61 @@ def semgrep_flag(codemod, files: list[Path]) -> dict[str, list]:
         except OSError: pass
 
 
-def one_codemod(job):
-    cid, programs = job["codemod"], job["programs"]
-    from codemodder.registry import load_registered_codemods
+def flag_many(items) -> dict[str, dict[str, list]]:
+    """ONE semgrep run for many codemods: items = [(codemod, project dir)]; codemod id -> {file path: [[start line, end line]]}.
+    Each codemod's own rule file is built as the codemod builds it; a result counts for codemod K only inside K's project."""
+    import yaml
+    from codemodder.codemods.semgrep import SemgrepRuleDetector
 
-    cm = next(c for c in load_registered_codemods().codemods if c.id == cid)
-    root = common.tmpdir("ps")
+    items = [(cm, d) for cm, d in items if isinstance(cm.detector, SemgrepRuleDetector)]
+    if not items:
+        return {}
+    yamls, rule_ids = [], {}
+    for cm, d in items:
+        ys = cm.detector.get_yaml_files(cm._internal_name)
+        yamls += ys
+        rule_ids[cm.id] = [r["id"] for y in ys for r in yaml.safe_load(Path(y).read_text())["rules"]]
+    out = Path(tempfile.mkstemp(suffix=".sarif", dir=os.environ.get("TMPDIR"))[1])
     try:
-        proj = root / "p"
-        e2e.write_project(proj, {name + ".py": text.encode("utf-8") for name, text in programs.items()})
-        files = sorted(proj.glob("*.py"))
-        flagged0 = semgrep_flag(cm, files)
-        r1 = e2e.run(proj, ["--codemod-include", cid])
-        t1 = e2e.read_tree(proj)
-        flagged1 = semgrep_flag(cm, files)
-        r2 = e2e.run(proj, ["--codemod-include", cid])
-        t2 = e2e.read_tree(proj)
-
-        def per_file(rep):
-            ch, failed = {}, set()
-            for res in (rep or {}).get("results", []):
-                for cs in res["changeset"]:
-                    ch[cs["path"]] = [c["lineNumber"] for c in cs["changes"]]
-                for f in res.get("failedFiles") or []:
-                    failed.add(Path(f).name)
-            return ch, failed
-
-        ch1, failed1 = per_file(r1["report"])
-        ch2, failed2 = per_file(r2["report"])
-        recs = {}
-        for name, text in programs.items():
-            fn = name + ".py"
-            recs[name] = {
-                "before": text, "after": t1[fn].decode("utf-8", "replace"), "after2": t2[fn].decode("utf-8", "replace"),
-                "changes": ch1.get(fn), "failed": fn in failed1, "changes2": ch2.get(fn), "failed2": fn in failed2,
-                "flagged0": flagged0.get(str(proj / fn), []), "flagged1": flagged1.get(str(proj / fn), []),
-            }
-        return {"codemod": cid, "rc": [r1["rc"], r2["rc"]], "semgrep": bool(flagged0) or bool(flagged1) or _is_semgrep(cm), "records": recs}
+        cmd = ["semgrep", "scan", "--no-error", "--jobs", "16", "--sarif", "-o", str(out)]
+        for y in yamls:
+            cmd += ["--config", str(y)]
+        cmd += [str(d) for _, d in items]
+        subprocess.run(cmd, stdout=subprocess.DEVNULL, stderr=subprocess.DEVNULL, timeout=1800)
+        data = json.loads(out.read_text() or "{}")
+        res: dict[str, dict[str, list]] = {cm.id: {} for cm, _ in items}
+        for run in data.get("runs", []):
+            for r in run.get("results", []):
+                rid = r.get("ruleId", "")
+                for l in r.get("locations", []):
+                    pl = l["physicalLocation"]
+                    uri, rg = pl["artifactLocation"]["uri"], pl["region"]
+                    for cm, d in items:
+                        if uri.startswith(str(d) + "/") and any(rid == i or rid.endswith("." + i) for i in rule_ids[cm.id]):
+                            res[cm.id].setdefault(uri, []).append([rg["startLine"], rg.get("endLine", rg["startLine"])])
+        return res
     finally:
-        shutil.rmtree(root, ignore_errors=True)
+        for y in yamls + [out]:
+            try: os.unlink(y)
+            except OSError: pass
+
+
+def _per_file(rep):
+    ch, failed = {}, set()
+    for res in (rep or {}).get("results", []):
+        for cs in res["changeset"]:
+            ch[cs["path"]] = [c["lineNumber"] for c in cs["changes"]]
+        for f in res.get("failedFiles") or []:
+            failed.add(Path(f).name)
+    return ch, failed
+
+
+def cli_step(job):
+    """one CLI run of the codemod on its project (in place); returns (rc, changes per file, failed files, tree)"""
+    proj = Path(job["proj"])
+    r = e2e.run(proj, ["--codemod-include", job["codemod"]])
+    ch, failed = _per_file(r["report"])
+    return {"rc": r["rc"], "changes": ch, "failed": sorted(failed), "tree": {k: v.decode("utf-8", "replace") for k, v in e2e.read_tree(proj).items()}}
 
 
 def _is_semgrep(cm):
@@ -149,7 +165,7 @@ def _is_semgrep(cm):
 
 
 def run_pass(tier: str, seed: int, want: set[str] | None = None) -> dict:
-    """returns {codemod id: result of one_codemod}; cached"""
+    """returns {codemod id: per-codemod records}; cached"""
     key = f"{src_hash()}-{tier}-{seed}"
     CACHE.mkdir(parents=True, exist_ok=True)
     f = CACHE / f"progspace-{key}.json"
@@ -171,8 +187,9 @@ def run_pass(tier: str, seed: int, want: set[str] | None = None) -> dict:
         libcst = [i for i in ids if i not in sg]
         sgi = [i for i in ids if i in sg]
         rng.shuffle(libcst); rng.shuffle(sgi)
-        must = ["pixee:python/lazy-logging", "pixee:python/sql-parameterization", "pixee:python/invert-boolean-check"]
-        ids = sorted(set(libcst[:18] + sgi[:8] + [m for m in must if m in ids]))
+        # codemods with hand-written corner shapes or call-shape templates always take part
+        must = [m for m in ids if m in extra or m in callshapes.TEMPLATES]
+        ids = sorted(set(libcst[:6] + sgi[:2] + must))
     jobs = []
     for cid in ids:
         pool = list(seeds[cid])
@@ -188,10 +205,35 @@ def run_pass(tier: str, seed: int, want: set[str] | None = None) -> dict:
                 programs[f"s{si}_{k.replace('-', '_')}"] = vs[k]
         programs.update(callshapes.programs(cid, rng, 8 if tier == "quick" else 0))
         jobs.append({"codemod": cid, "programs": programs})
-    results = impl.pool_map(one_codemod, jobs)
-    out = {}
-    for j, r in zip(jobs, results):
-        out[j["codemod"]] = r[1] if r[0] == "ok" else {"codemod": j["codemod"], "error": r[1], "records": {}}
+    by_id = {c.id: c for c in reg.codemods}
+    root = common.tmpdir("ps")
+    try:
+        for j in jobs:
+            j["proj"] = str(root / j["codemod"].replace(":", "_").replace("/", "_") / "p")
+            e2e.write_project(Path(j["proj"]), {name + ".py": text.encode("utf-8") for name, text in j["programs"].items()})
+        items = [(by_id[j["codemod"]], Path(j["proj"])) for j in jobs]
+        flagged0 = flag_many(items)
+        step = [{"codemod": j["codemod"], "proj": j["proj"]} for j in jobs]
+        run1 = impl.pool_map(cli_step, step)
+        flagged1 = flag_many(items)
+        run2 = impl.pool_map(cli_step, step)
+        out = {}
+        for j, r1, r2 in zip(jobs, run1, run2):
+            cid = j["codemod"]
+            if r1[0] != "ok" or r2[0] != "ok":
+                out[cid] = {"codemod": cid, "error": (r1[1] if r1[0] != "ok" else r2[1]), "records": {}}
+                continue
+            r1, r2 = r1[1], r2[1]
+            recs = {}
+            for name, text in j["programs"].items():
+                fn = name + ".py"
+                path = str(Path(j["proj"]) / fn)
+                recs[name] = {"before": text, "after": r1["tree"][fn], "after2": r2["tree"][fn],
+                              "changes": r1["changes"].get(fn), "failed": fn in r1["failed"], "changes2": r2["changes"].get(fn), "failed2": fn in r2["failed"],
+                              "flagged0": flagged0.get(cid, {}).get(path, []), "flagged1": flagged1.get(cid, {}).get(path, [])}
+            out[cid] = {"codemod": cid, "rc": [r1["rc"], r2["rc"]], "semgrep": cid in sg, "records": recs}
+    finally:
+        shutil.rmtree(root, ignore_errors=True)
     tmp = f.with_suffix(".tmp%d" % os.getpid())
     tmp.write_text(json.dumps(out))
     os.replace(tmp, f)
